@@ -283,6 +283,9 @@ mod sim {
     thread_local! {
         static TID: Cell<Option<usize>> = Cell::new(None);
         static CUR_CALL: Cell<usize> = Cell::new(0);
+        // (call, fine yield points seen in it): after the first 400 of a call only every 32nd is
+        // a scheduling point, so that very large inputs stay affordable
+        static FINE_SEEN: Cell<(usize, u32)> = Cell::new((usize::MAX, 0));
     }
 
     #[derive(Clone, Copy, PartialEq, Eq, Debug)]
@@ -603,8 +606,17 @@ mod sim {
                 }
             }
             if self.0.fine {
-                self.0.fine_points.fetch_add(1, std::sync::atomic::Ordering::Relaxed);
-                self.0.park(tid, Th::Ready);
+                let call = CUR_CALL.with(|c| c.get());
+                let n = FINE_SEEN.with(|c| {
+                    let (k, n) = c.get();
+                    let n = if k == call { n + 1 } else { 1 };
+                    c.set((call, n));
+                    n
+                });
+                if n <= 400 || n % 32 == 0 {
+                    self.0.fine_points.fetch_add(1, std::sync::atomic::Ordering::Relaxed);
+                    self.0.park(tid, Th::Ready);
+                }
             }
             fire
         }
